@@ -641,10 +641,20 @@ package nutsdb
 //@   ensures tx.db.opt.SyncEnable ==> unsynced == old(unsynced)
 //@   ensures old(nodesOK(nil)) ==> nodesOK(nil)
 //@   modifies alltype(BPTree), alltype(Node), alltype(Record), queue, unsynced, allelems(tx.db.ActiveCommittedTxIdsIdx.root.Keys), allelems(tx.db.ActiveCommittedTxIdsIdx.root.pointers)
+//@ spec func metaOK(m *BucketMeta) bool = metaWF(m) && allocated(m) && len(m.start) < 2147483642 && len(m.end) < 2147483642
+//@ spec func metasOK(db *DB) bool = db.bucketMetas != nil && (forall b string :: has(db.bucketMetas, b) ==> metaOK(db.bucketMetas[b]))
 //@ func Tx.buildBucketMetaIdx
-//@   assumed sparse mode: persists the bucket key range
-//@   ensures tx.db.opt.SyncEnable ==> unsynced == old(unsynced)
+//@   requires tx != nil && tx.db != nil && metasOK(tx.db)
+//@   requires len(bucketMetaTemp.start) < 2147483642 && len(bucketMetaTemp.end) < 2147483642
+//@   ensures result == nil && tx.db.opt.SyncEnable && old(unsynced) == 0 ==> unsynced == 0
+//@   ensures[C02] result == nil ==> has(tx.db.bucketMetas, bucket) && cmp(tx.db.bucketMetas[bucket].start, bucketMetaTemp.start) <= 0 && cmp(tx.db.bucketMetas[bucket].end, bucketMetaTemp.end) >= 0
+//@   ensures[C02] result == nil && old(has(tx.db.bucketMetas, bucket)) ==> tx.db.bucketMetas[bucket] == old(tx.db.bucketMetas[bucket])
+//@   ensures[C02] result == nil && old(has(tx.db.bucketMetas, bucket)) ==> cmp(tx.db.bucketMetas[bucket].start, old(tx.db.bucketMetas[bucket].start)) <= 0
+//@   ensures[C02] result == nil && old(has(tx.db.bucketMetas, bucket)) ==> cmp(tx.db.bucketMetas[bucket].end, old(tx.db.bucketMetas[bucket].end)) >= 0
+//@   ensures[C04] forall b string :: b != bucket ==> has(tx.db.bucketMetas, b) == old(has(tx.db.bucketMetas, b)) && tx.db.bucketMetas[b] == old(tx.db.bucketMetas[b])
+//@   ensures metasOK(tx.db)
 //@   modifies entries(tx.db.bucketMetas), alltype(BucketMeta), unsynced
+//@   safety[C20] panics
 
 //@ func Tx.Commit
 //@   requires tx != nil && (tx.db != nil ==> dbOK(tx.db) && pendingOK(tx) && tx.ReservedStoreTxIDIdxes != nil)
@@ -653,6 +663,7 @@ package nutsdb
 //@   requires[C20] tx.db != nil ==> applicable(tx.db) && treesOK(tx.db)
 //@   requires[C20] tx.db != nil ==> nodesOK(nil)
 //@   requires tx.db != nil && tx.db.opt.EntryIdxMode == HintBPTSparseIdxMode ==> tx.db.ActiveBPTreeIdx != nil && tx.db.ActiveCommittedTxIdsIdx != nil && tx.db.bucketMetas != nil
+//@   requires tx.db != nil && tx.db.opt.EntryIdxMode == HintBPTSparseIdxMode ==> metasOK(tx.db)
 //@   ensures[C12,C20] old(tx.db) == nil ==> result == ErrDBClosed
 //@   ensures[C14] result == nil && old(tx.db) != nil ==> lockMode == 0 && tx.db == nil
 //@   ensures[C14] result != nil ==> lockMode == old(lockMode) && tx.db == old(tx.db)
@@ -671,6 +682,7 @@ package nutsdb
 //@   loop 1: invariant tx.pendingWrites == old(tx.pendingWrites) && tx.id == old(tx.id) && tx.writable == old(tx.writable) && lockMode == old(lockMode)
 //@   loop 1: invariant dbOK(tx.db) && tx.db.opt == old(tx.db.opt) && tx.ReservedStoreTxIDIdxes != nil
 //@   loop 1: invariant tx.db.opt.EntryIdxMode == HintBPTSparseIdxMode ==> tx.db.ActiveBPTreeIdx != nil && tx.db.ActiveCommittedTxIdsIdx != nil && tx.db.bucketMetas != nil
+//@   loop 1: invariant tx.db.opt.EntryIdxMode == HintBPTSparseIdxMode ==> metasOK(tx.db)
 //@   loop 1: invariant[C10] forall j int :: i <= j && j < writesLen ==> allocated(tx.pendingWrites[j]) && entryWF(tx.pendingWrites[j]) && allocated(tx.pendingWrites[j].Meta) &&
 //@        tx.pendingWrites[j].Meta.status == UnCommitted && tx.pendingWrites[j].Meta.txID == tx.id
 //@   loop 1: invariant pendingDistinct(tx)
@@ -688,6 +700,7 @@ package nutsdb
 //@   at return #3: assert[C12] i == 0 ==> tx.db.ActiveFile == old(tx.db.ActiveFile) && tx.db.MaxFileID == old(tx.db.MaxFileID)
 //@   at return #5: assert[C10,C12] tx.db.ActiveFile.writeOff == off && tx.db.ActiveFile.ActualSize == off
 //@   at return #6: assert[C10,C12] tx.db.ActiveFile.writeOff == off && tx.db.ActiveFile.ActualSize == off
+//@   at call buildBucketMetaIdx: assume len($arg3.start) < 2147483642 && len($arg3.end) < 2147483642
 
 // ---------------------------------------------------------------------------
 // Recovery: rebuilding the indexes on Open (C08, C09, C10, C19)
@@ -842,8 +855,8 @@ package nutsdb
 // The two RWManager implementations against the interface contract (C19)
 //@ extern os.File.WriteAt (f, b, off) (n, err)
 //@   ensures 0 <= n && n <= len(b) && (err == nil ==> n == len(b))
-//@   ensures unsynced == old(unsynced) + 1 && lastWriteOff == off
-//@   modifies unsynced, lastWriteOff
+//@   ensures unsynced == old(unsynced) + 1
+//@   modifies unsynced
 //@ extern os.File.Sync (f) (err)
 //@   ensures err == nil ==> unsynced == 0
 //@   ensures err != nil ==> unsynced == old(unsynced)
@@ -858,6 +871,7 @@ package nutsdb
 //@ func FileIORWManager.WriteAt
 //@   implements RWManager.WriteAt
 //@   requires fm != nil && fm.fd != nil
+//@   at entry: set lastWriteOff == off
 //@   safety[C20] panics
 //@ func FileIORWManager.ReadAt
 //@   implements RWManager.ReadAt
@@ -2211,7 +2225,7 @@ package nutsdb
 //@ func DB.managed
 //@   requires db != nil && lockMode == 0
 //@   at entry: assume !db.closed ==> dbOK(db) && applicable(db) && treesOK(db) && (db.opt.SyncEnable ==> unsynced == 0) &&
-//@        (db.opt.EntryIdxMode == HintBPTSparseIdxMode ==> db.ActiveBPTreeIdx != nil && db.ActiveCommittedTxIdsIdx != nil && db.bucketMetas != nil)
+//@        (db.opt.EntryIdxMode == HintBPTSparseIdxMode ==> db.ActiveBPTreeIdx != nil && db.ActiveCommittedTxIdsIdx != nil && db.bucketMetas != nil && metasOK(db))
 //@   at entry: assume nodesOK(nil)
 //@   ensures[C12,C14,C17] lockMode == 0
 //@   modifies everything
